@@ -224,11 +224,16 @@ func VF_C13_sorted_lock_poses() {
 }
 
 // (c) two threads, opposite key orders, every schedule (pre-emption at each synchronisation point)
+var c13Preempt = 1
+
 func c13Pair(label string, typ byte, mk func(a, b []byte) ([][]byte, [][]byte)) {
 	vfOpt("concurrent", 1)
-	vfOpt("preempt", 3)
+	vfOpt("racecheck", 1)
+	vfOpt("preempt", c13Preempt)
 	m := hNewDb(2)
-	a, b := c13Key("a"), c13Key("b")
+	// concrete keys (placement over all stripes is covered by the order harnesses): "a" against one of
+	// four others, which land on the same or on different stripes
+	a, b := bs("a"), bs([]string{"b", "c", "d", "e"}[vfChoice("other", 4)])
 	c13Seed(m, typ, a, b)
 	c1, c2 := mk(a, b)
 	ctx := context.Background()
@@ -238,26 +243,146 @@ func c13Pair(label string, typ byte, mk func(a, b []byte) ([][]byte, [][]byte)) 
 	vfAssert(vfLocksHeld() == 0, label+"-pair-no-lock-left")
 }
 
-func VF_C13_pair_mset() {
+func VF_C13_pair_mset_quick()    { c13Preempt = 1; c13pair_mset() }
+func VF_C13_pair_mset_thorough() { c13Preempt = 2; c13pair_mset() }
+
+func c13pair_mset() {
 	c13Pair("mset", 's', func(a, b []byte) ([][]byte, [][]byte) {
 		return [][]byte{bs("mset"), a, bs("1"), b, bs("1")}, [][]byte{bs("mset"), b, bs("2"), a, bs("2")}
 	})
 }
 
-func VF_C13_pair_rename() {
+func VF_C13_pair_rename_quick()    { c13Preempt = 1; c13pair_rename() }
+func VF_C13_pair_rename_thorough() { c13Preempt = 2; c13pair_rename() }
+
+func c13pair_rename() {
 	c13Pair("rename", 's', func(a, b []byte) ([][]byte, [][]byte) {
 		return [][]byte{bs("rename"), a, b}, [][]byte{bs("rename"), b, a}
 	})
 }
 
-func VF_C13_pair_lmove() {
+func VF_C13_pair_lmove_quick()    { c13Preempt = 1; c13pair_lmove() }
+func VF_C13_pair_lmove_thorough() { c13Preempt = 2; c13pair_lmove() }
+
+func c13pair_lmove() {
 	c13Pair("lmove", 'l', func(a, b []byte) ([][]byte, [][]byte) {
 		return [][]byte{bs("lmove"), a, b, bs("left"), bs("right")}, [][]byte{bs("lmove"), b, a, bs("right"), bs("left")}
 	})
 }
 
-func VF_C13_pair_smove_sunionstore() {
+func VF_C13_pair_smove_sunionstore_quick()    { c13Preempt = 1; c13pair_smove_sunionstore() }
+func VF_C13_pair_smove_sunionstore_thorough() { c13Preempt = 2; c13pair_smove_sunionstore() }
+
+func c13pair_smove_sunionstore() {
 	c13Pair("smove-sunionstore", 'e', func(a, b []byte) ([][]byte, [][]byte) {
 		return [][]byte{bs("smove"), a, b, bs("a")}, [][]byte{bs("sunionstore"), a, b, a}
 	})
 }
+
+// (d) atomicity: an observer on another thread issuing two single-key reads can never see a
+// multi-key command half applied (in the order that would expose it), under every schedule.
+func c13Atomic(which int) {
+	vfOpt("concurrent", 1)
+	vfOpt("racecheck", 1)
+	vfOpt("preempt", 2)
+	m := hNewDb(2)
+	ctx := context.Background()
+	a, b := bs("a"), bs([]string{"b", "c", "d"}[vfChoice("other", 3)])
+	var first, second rv
+	switch which {
+	case 0: // MSET a 1 b 1 over a=0,b=0: "b new, then a old" is impossible
+		hExec(m, bs("mset"), a, bs("0"), b, bs("0"))
+		vfSpawn(func() { m.ExecCommand(ctx, [][]byte{bs("mset"), a, bs("1"), b, bs("1")}, nil) })
+		vfSpawn(func() { first = hExec(m, bs("get"), b); second = hExec(m, bs("get"), a) })
+		vfWaitAll()
+		vfAssert(!(string(first.b) == "1" && string(second.b) == "0"), "mset-never-half-applied")
+	case 1: // RENAME a b: "b present (moved value), then a still present" is impossible
+		hExec(m, bs("set"), a, bs("v"))
+		vfSpawn(func() { m.ExecCommand(ctx, [][]byte{bs("rename"), a, b}, nil) })
+		vfSpawn(func() { first = hExec(m, bs("exists"), b); second = hExec(m, bs("exists"), a) })
+		vfWaitAll()
+		vfAssert(!(first.n == 1 && second.n == 1), "rename-value-never-in-both-keys")
+	case 2: // RENAME a b: "a gone, then b not there yet" is impossible
+		hExec(m, bs("set"), a, bs("v"))
+		vfSpawn(func() { m.ExecCommand(ctx, [][]byte{bs("rename"), a, b}, nil) })
+		vfSpawn(func() { first = hExec(m, bs("exists"), a); second = hExec(m, bs("exists"), b) })
+		vfWaitAll()
+		vfAssert(!(first.n == 0 && second.n == 0), "rename-value-never-in-neither-key")
+	case 3: // LMOVE a b: the element is never duplicated: "in b, then still in a"
+		hExec(m, bs("rpush"), a, bs("e"))
+		vfSpawn(func() { m.ExecCommand(ctx, [][]byte{bs("lmove"), a, b, bs("left"), bs("right")}, nil) })
+		vfSpawn(func() { first = hExec(m, bs("llen"), b); second = hExec(m, bs("llen"), a) })
+		vfWaitAll()
+		vfAssert(!(first.n == 1 && second.n == 1), "lmove-element-never-duplicated")
+	case 4: // LMOVE a b: the element is never lost from view: "gone from a, then not in b"
+		hExec(m, bs("rpush"), a, bs("e"))
+		vfSpawn(func() { m.ExecCommand(ctx, [][]byte{bs("lmove"), a, b, bs("left"), bs("right")}, nil) })
+		vfSpawn(func() { first = hExec(m, bs("llen"), a); second = hExec(m, bs("llen"), b) })
+		vfWaitAll()
+		vfAssert(!(first.n == 0 && second.n == 0), "lmove-element-never-lost")
+	case 5: // SMOVE a b x
+		hExec(m, bs("sadd"), a, bs("x"))
+		vfSpawn(func() { m.ExecCommand(ctx, [][]byte{bs("smove"), a, b, bs("x")}, nil) })
+		vfSpawn(func() { first = hExec(m, bs("sismember"), b, bs("x")); second = hExec(m, bs("sismember"), a, bs("x")) })
+		vfWaitAll()
+		vfAssert(!(first.n == 1 && second.n == 1), "smove-member-never-in-both-sets")
+	case 6:
+		hExec(m, bs("sadd"), a, bs("x"))
+		vfSpawn(func() { m.ExecCommand(ctx, [][]byte{bs("smove"), a, b, bs("x")}, nil) })
+		vfSpawn(func() { first = hExec(m, bs("sismember"), a, bs("x")); second = hExec(m, bs("sismember"), b, bs("x")) })
+		vfWaitAll()
+		vfAssert(!(first.n == 0 && second.n == 0), "smove-member-never-in-neither-set")
+	}
+	vfAssert(vfLocksHeld() == 0, "atomic-no-lock-left")
+}
+
+func VF_C13_atomic_mset()        { c13Atomic(0) }
+func VF_C13_atomic_rename_both() { c13Atomic(1) }
+func VF_C13_atomic_rename_none() { c13Atomic(2) }
+func VF_C13_atomic_lmove_dup()   { c13Atomic(3) }
+func VF_C13_atomic_lmove_lost()  { c13Atomic(4) }
+func VF_C13_atomic_smove_both()  { c13Atomic(5) }
+func VF_C13_atomic_smove_none()  { c13Atomic(6) }
+
+// (e) a second writer on the destination key runs concurrently with the two-key command: both keys
+// must be protected for its whole duration (no data race on the destination value)
+func c13DestWriter(which int) {
+	vfOpt("concurrent", 1)
+	vfOpt("racecheck", 1)
+	vfOpt("preempt", 2)
+	m := hNewDb(2)
+	ctx := context.Background()
+	a, b := bs("a"), bs([]string{"b", "c", "d"}[vfChoice("other", 3)])
+	var c1, c2 [][]byte
+	switch which {
+	case 0:
+		hExec(m, bs("rpush"), a, bs("e"))
+		hExec(m, bs("rpush"), b, bs("f"))
+		c1 = [][]byte{bs("lmove"), a, b, bs("left"), bs("right")}
+		c2 = [][]byte{bs("rpush"), b, bs("g")}
+	case 1:
+		hExec(m, bs("sadd"), a, bs("x"))
+		hExec(m, bs("sadd"), b, bs("y"))
+		c1 = [][]byte{bs("smove"), a, b, bs("x")}
+		c2 = [][]byte{bs("sadd"), b, bs("z")}
+	case 2:
+		hExec(m, bs("set"), a, bs("v"))
+		hExec(m, bs("set"), b, bs("w"))
+		c1 = [][]byte{bs("rename"), a, b}
+		c2 = [][]byte{bs("append"), b, bs("z")}
+	case 3:
+		hExec(m, bs("sadd"), a, bs("x"))
+		hExec(m, bs("sadd"), b, bs("y"))
+		c1 = [][]byte{bs("sunionstore"), b, a, b}
+		c2 = [][]byte{bs("sadd"), b, bs("z")}
+	}
+	vfSpawn(func() { m.ExecCommand(ctx, c1, nil) })
+	vfSpawn(func() { m.ExecCommand(ctx, c2, nil) })
+	vfWaitAll()
+	vfAssert(vfLocksHeld() == 0, "dest-writer-no-lock-left")
+}
+
+func VF_C13_destwriter_lmove()       { c13DestWriter(0) }
+func VF_C13_destwriter_smove()       { c13DestWriter(1) }
+func VF_C13_destwriter_rename()      { c13DestWriter(2) }
+func VF_C13_destwriter_sunionstore() { c13DestWriter(3) }
